@@ -7,7 +7,8 @@ import os
 VERIF = os.path.dirname(os.path.dirname(os.path.abspath(__file__)))
 REPO = os.environ.get("PVMON_REPO", "/repo")
 PY = "/venv/bin/python"
-OUT = os.path.join(VERIF, "out")
+OUT = os.environ.get("PVMON_OUT") or os.path.join(VERIF, "out")
+EVIDENCE = os.path.join(os.environ["PVMON_OUT"], "evidence") if os.environ.get("PVMON_OUT") else os.path.join(VERIF, "evidence")
 CACHE = os.path.join(VERIF, ".cache")
 DEPS = os.path.join(VERIF, ".deps")
 
